@@ -62,7 +62,7 @@ var c05Arms = []c05Arm{
 	{"_bytes_encoding.pb.go", ".Encoding", "BYTES_ENCODING_BASE64URL_RAW", []string{`base64\.RawURLEncoding\.EncodeToString\(`}, []string{`base64\.RawURLEncoding\.DecodeString\(`, `base64\.StdEncoding\.EncodeToString\(`}},
 	{"_timestamp_format.pb.go", ".Format", "TIMESTAMP_FORMAT_UNIX_SECONDS", []string{`json\.Marshal\(\w+\.Unix\(\)\)`}, []string{`time\.Unix\(\w+, 0\)`, `\.Format\(time\.RFC3339Nano\)`}},
 	{"_timestamp_format.pb.go", ".Format", "TIMESTAMP_FORMAT_UNIX_MILLIS", []string{`json\.Marshal\(\w+\.UnixMilli\(\)\)`}, []string{`time\.UnixMilli\(\w+\)`, `\.Format\(time\.RFC3339Nano\)`}},
-	{"_timestamp_format.pb.go", ".Format", "TIMESTAMP_FORMAT_DATE", []string{`\.Format\("2006-01-02"\)`}, []string{`time\.Parse\("2006-01-02", \w+\)`, `\.Format\(time\.RFC3339Nano\)`}},
+	{"_timestamp_format.pb.go", ".Format", "TIMESTAMP_FORMAT_DATE", []string{`\.Format\(("2006-01-02"|time\.DateOnly)\)`}, []string{`time\.Parse\(("2006-01-02"|time\.DateOnly), \w+\)`, `\.Format\(time\.RFC3339Nano\)`}},
 	{"_empty_behavior.pb.go", ".Behavior", "EMPTY_BEHAVIOR_NULL", []string{`= \[\]byte\("null"\)`}, []string{`== "null"`}},
 	{"_empty_behavior.pb.go", ".Behavior", "EMPTY_BEHAVIOR_OMIT", []string{`delete\(\w+, `}, nil},
 	{"_nullable.pb.go", "", "", []string{`= \[\]byte\("null"\)`}, []string{`== "null"`, `delete\(\w+, `}},
